@@ -235,14 +235,15 @@ REGISTRY = {
         'assumptions': ['theorem rest_of_line covers text, concat, nest, group, line, softline, hardline, always_break, annotate; align is covered by the correspondence and the oracle only (named in DESIGN.md)'],
     },
     'C06': {
-        'theorems': ['PP.C06.fits_iff_spec', 'PP.C06.broken_only_if', 'PP.C06.flat_only_if', 'PP.fitsE_iff_scan'],
-        'modules': ENGINE_MODULES + ['PP.Proofs.FitsE', 'PP.Proofs.Scan', 'PP.Props.C06'],
+        'theorems': ['PP.C06.fits_iff_spec', 'PP.C06.broken_only_if', 'PP.C06.flat_only_if', 'PP.fitsE_iff_scan',
+                     'PP.C06.smart_iff_demands', 'PP.C06.broken_only_if_smart', 'PP.C06.flat_only_if_smart', 'PP.fitsSmart_iff_demands'],
+        'modules': ENGINE_MODULES + ['PP.Proofs.FitsE', 'PP.Proofs.Scan', 'PP.Props.C06', 'PP.Proofs.SmartSpec', 'PP.Props.C06b'],
         'sections': [{'name': 'engine-classic', 'run': engine_section(classic=True)},
                      {'name': 'one-line-stable-oracle', 'run': oracle_sec('C06')},
                      {'name': 'values-one-line', 'run': values_sec('oneline_section')}],
         'replay': engine_replay,
         'rule': 'classic-algebra engine correspondence + the one-line-stability oracle evaluated on the implementation',
-        'assumptions': ['the smart strategy\'s extra reason (a following deeper line overflowing) is stated but not characterised denotationally'],
+        'assumptions': ['the smart strategy\'s extra reason (a following, more deeply indented line overflowing) is characterised (C06.broken_only_if_smart) for documents without align; with align it is stated only (the predicate evaluates align at the column it has in mind)'],
     },
     'C02': {
         'theorems': ['PP.C02.lines_join', 'PP.C02.lines_nonempty', 'PP.C02.budget_positive', 'PP.C02.quote_is_quote',
